@@ -46,41 +46,39 @@ def fields(verdict):
 def signature(case, verdict):
     """Structural key of a failing buffer case (matched against KNOWN_FINDINGS.json).
     mode    : buf (area buffer) | ss (single-sided through GEOSBufferParams) | oc (GEOSOffsetCurve) | ssb (GEOSSingleSidedBuffer)
-    clause  : null | type | invalid | ring | inner | outer | far | near | side
-    buf/inner: tier doc = only the documented tolerance e(q) is missed, the bound that follows from the fillet step
-               (cos(3pi/8q), fillet_step_bound) still holds; tier gross = even that is missed.
-               qle5      : quadrant segments <= 5 (where e(q) is smaller than the real chord error)
-               closedLine: the input contains a closed LineString (buffered as a ring by addLinearRingSides)
-    other modes: clause shape = a result vertex is farther than the bound / nearer than the bound / on the wrong side;
-                 reg = big when |d| exceeds the shortest input segment, multi = multi-part input"""
+    clause  : null | type | invalid | ring | inner | outer | shape (a vertex of a lineal / single-sided result is too far,
+              too near or on the wrong side)
+    selfCrossingRing (mode buf): the input contains a CLOSED LineString that crosses / retraces itself (buffered as a ring by
+              BufferCurveSetBuilder::addLinearRingSides, whose orientation / erosion heuristics assume a simple ring)
+    tier, qle5 (mode buf, inner / outer, no such ring): tier doc = only the documented tolerance e(q) is missed while the bound
+              that follows from the fillet step (cos(3 pi / 8q), fillet_step_bound) still holds; tier gross = even that is
+              missed; qle5 = quadrant segments <= 5 (where e(q) is smaller than the real chord error)
+    simpleOpenLines (other modes): false when the input linework is closed or not simple (two segments meet other than
+              consecutive ones at their common vertex, or a point is repeated);  reg: big when |d| exceeds the shortest segment"""
     kv = params_of(case)
     f = fields(verdict)
     mode = kv.get("mode", "buf")
     if mode == "buf" and kv.get("ss") == "1":
         mode = "ss"
     clause = f["clause"]
-    sig = {"mode": mode, "clause": clause}
+    selfx = f.get("selfx") == "1"
+    ring = f.get("closed") == "1" and selfx
     if mode == "buf":
-        if clause in ("inner", "outer"):
+        sig = {"mode": mode, "clause": clause, "selfCrossingRing": ring}
+        if clause in ("inner", "outer") and not ring:
             sig["tier"] = f.get("tier", "?")
-            sig["closedLine"] = f.get("closed") == "1"
             try:
                 q = int(f.get("q", kv.get("q", "8")))
             except ValueError:
                 q = 8
             sig["qle5"] = q <= 5
-            if sig["closedLine"]:
-                sig.pop("tier")
-                sig.pop("qle5")
-    else:
-        if clause in ("far", "near", "side"):
-            # vertex-level contradictions of a lineal / single-sided result: one class per call and regime
-            sig["clause"] = "shape"
-            sig["reg"] = f.get("reg", "?")
-        if clause == "null":
-            tin = parts_of(case)[1].split()
-            sig["multi"] = len(tin) > 1 and tin[1] in ("ML", "MP", "MY", "GC")
-    return sig
+        return sig
+    if selfx or f.get("closed") == "1":
+        # single-sided buffers / offset curves of linework that is closed or not simple: one class per call
+        return {"mode": mode, "simpleOpenLines": False}
+    if clause in ("far", "near", "side", "band-in", "band-out"):
+        return {"mode": mode, "clause": "shape", "reg": f.get("reg", "?"), "simpleOpenLines": True}
+    return {"mode": mode, "clause": clause, "simpleOpenLines": True}
 
 
 def evaluate(exe, tin, par):
@@ -280,7 +278,7 @@ def run(ctx):
             continue
         seen.append(sig0)
         best_case, best_v = case, got
-        if shrunk < 6 and sig0["clause"] not in ("null",):
+        if shrunk < 6 and fields(got)["clause"] not in ("null",):
             tin, v, c2 = shrink(exe, case, got)
             best_case, best_v = c2, v
             shrunk += 1
@@ -289,11 +287,11 @@ def run(ctx):
             continue
         if sig != sig0:
             seen.append(sig)
-        found_input = True
         p = parts_of(best_case)
-        ctx.violation("buffer result contradicts the distance specification: %s  [%s]" % (best_v[:160], json.dumps(sig, sort_keys=True)),
-                      dict({"kind": "failing-input", "stream": "buffer", "case": "B | %s | %s" % (p[1], p[2]), "signature": sig}, **describe(best_case, best_v)),
-                      signature=sig)
+        if ctx.violation("buffer result contradicts the distance specification: %s  [%s]" % (best_v[:160], json.dumps(sig, sort_keys=True)),
+                         dict({"kind": "failing-input", "stream": "buffer", "case": "B | %s | %s" % (p[1], p[2]), "signature": sig}, **describe(best_case, best_v)),
+                         signature=sig):
+            found_input = True
     ctx.cov["support_correspondence"] = corr
     if fillet_note is not None:
         ctx.violation("number of fillet vertices differs from Model/Buffer/Fillet.lean (t = %.9g quanta: code %s, model %s interior vertices)" %
